@@ -77,7 +77,7 @@ def user_args(comp, rpat, bspat):
     return {"Sgate": [1.019] * comp, "loops": {k: {"Rgate": rvals(k), "BSgate": bsvals(k)} for k in range(3)}}
 
 
-WRONG_FIXED = ["s.phi", "bs0.phi", "bs1.phi", "bs2.phi"]
+WRONG_FIXED = ["s.phi", "bs0.phi", "bs1.phi", "bs2.phi", "s.value-in-a-gap"]
 
 
 def _uo(user_offsets):
@@ -157,6 +157,12 @@ def check(loop_phases, comp, rpat, bspat, prepared, user_offsets, res, wrong=Non
     T = len(ideal_list[0])
     src_list = [list(map(float, a)) for a in src_list]
     ideal_list = [list(map(float, a)) for a in ideal_list]
+    if wrong == "s.value-in-a-gap":
+        # one squeezing value between two allowed settings (and between the smallest and largest entry of the array)
+        k = max(range(len(src_list[0])), key=lambda j: src_list[0][j])
+        src_list[0][k] = 0.9
+        if not ranges:
+            return True  # nothing to refuse when the device publishes no ranges
     prog = build_program(src_list, user_offsets, loop_phases, wrong)
     if not ranges:
         dev = device(loop_phases, ranges=False)
